@@ -22,7 +22,8 @@ RULE = ("Kernel level: Hypothesis draws NW in 1..200 (every N*W factorisation), 
         "that round's model, and all_log_likelihood / sum / mean / median / per-cluster mean+median equal those of the "
         "labelled windows' reference densities under the final model. Non-trivial (kernel) = |log det| > 745 (outside the "
         "exp range of a double) or NW >= 50; (e2e) = >= 2 populated clusters; distinct by SHA-1 of the case."
-        ' The kernel sub-check also runs with Numba not importable.')
+        ' The kernel sub-check also runs with Numba not importable.'
+        ' Points also Fortran-ordered / transposed / row-strided; 32769..66000 points for NW<=3.')
 ASSUMPTIONS = ["cluster means of the final model are read through the guarded run_end hook (not part of the public result)",
                "tolerance (1e-9 + 4 n^2 eps kappa)(1+|ref|): kappa term bounds legitimate cancellation in the quadratic form / LU determinant"]
 
